@@ -66,17 +66,18 @@ theorem node_flat : ∀ (n : Node) (cwd : String) (r : Bool),
     have h2 := redirects_flat rs cwd r
     simp only [aNode, flat, L_append, L_cons, L_nil, atomDecisions, properDecisions,
       World.syn_hasHandler, World.syn_simpleSafe]
+    have hb : (mkCmdCtx w ws).base = (mkCmdCtx w ws).words.getD (mkCmdCtx w ws).baseIdx "" := rfl
     split
     · next he =>
       rw [combine_or_allow_S, S_append, h1, h2]
-      simp [mkCmdCtx] at he
-      simp [mkCmdCtx, he]
+      simp
     · next he =>
-      have hb : (mkCmdCtx w ws).base = (mkCmdCtx w ws).words.getD (skipAssign (mkCmdCtx w ws).words) "" := rfl
       rw [← hb]
       split
       · rw [combine_S]; simp [h1, h2, Action.sup_assoc]
-      · rw [combine_S]; simp [h1, h2, Action.sup_assoc]
+      · split
+        · rw [combine_S]; simp [h1, h2, Action.sup_assoc]
+        · rw [combine_S]; simp [h1, h2, Action.sup_assoc]
   | .pipeline cmds, cwd, r => by
     simp only [aNode, flat]
     rw [rejoin_S, nodes_flat cmds cwd r]
